@@ -29,6 +29,13 @@ CLAIMED = {
         note='Reference cycle lists and their listed conventions (HALT fetch address while halted; OTIR/OTDR trailing cycles use BC before the decrement, as both skoolkit implementations do) are trusted. '
              'Quick visits all slots on 48K and, on 128K, the I/O slots plus every 16th slot (the closures are the same code; contend_128k/io_contention_128k are checked directly). C implementation: via C06.',
         design='4 (C19), 3.2', technique=TECH + '; captured contention patterns vs documented machine cycles, fold lemma for contend()'),
+    'C07': dict(
+        text='The finite opcode space (all 1786 instruction slots) is enumerated at an interior address and at 65534/65535 (thorough: also 65532/65533) with symbolic operand bytes; per slot the byte length from the skool disassembler '
+             '(every additional-opcode setting, wrap on/off), the trace disassembler, sna2ctl\'s decoder and the Python simulator closure (PC delta / bytes fetched), the mnemonic skeleton and operand values of the two disassemblers '
+             '(operand equality decided by z3 over numeral tokens), and the T-state sets (every simulator path\'s delta is in the timing table entry and vice versa) are compared; any KeyError/IndexError path is a violation.',
+        note='Enumeration over opcodes (as the property itself prescribes) with symbolic operands. C dispatch data are tied to the Python simulator by C06. Python format() digit rendering is abstracted by numeral tokens. '
+             'Known finding recorded: relative jumps at 65535 with Wrap on fall back to a 1-byte DEFB.',
+        design='4 (C07)', technique='enumeration of the finite opcode space with symbolic operands; real decoders executed on z3 proxies; z3 decides operand-value equality'),
 }
 NOT_APPLICABLE = {
     'C16': 'HTML link/anchor consistency is a property of generated document structure (which files and id= strings exist); there is no bounded arithmetic/data path to make symbolic - a solver encoding would be a copy of the writer (DESIGN.md section 5).',
